@@ -54,6 +54,11 @@ def cases(tier, rng):
                         continue
                     out.append("g%d.%s.%s.%s.%s rt %s / %s" % (k, t, transport, prefix, how, t, cell(t, transport, prefix, how)))
                     k += 1
+        # the same with a monitor whose receiver has been dropped (nobody listens to events any more) and three peers
+        for how in ("close", "drop"):
+            ops = ["bind tcp4", "conn 0", "conn 0", "conn 0", how] + (["sleep 150"] if how == "drop" else []) + ["probe 0", "peers_eof", "tasks"]
+            out.append("g%d.%s.tcp4.accepted.%s rt %s mondrop / %s" % (k, t, how, t, " / ".join(ops)))
+            k += 1
     return out
 
 
